@@ -17,7 +17,6 @@ package jobs
 import (
 	"context"
 	"errors"
-	"math"
 	"reflect"
 	"sync"
 	"time"
@@ -234,7 +233,8 @@ func (pipeline *IncrementalPipeline) sync(job *job, ctx context.Context) (int, e
 							parallelisms = 1
 						}
 
-						psize := int(math.Round(float64(len(entities)) / float64(parallelisms)))
+						// chunk size rounded up, so that the chunks cover all entities
+						psize := (len(entities) + parallelisms - 1) / parallelisms
 						workResults := make([]presult, parallelisms)
 
 						local := func(workId int, lentities []*server.Entity, wg *sync.WaitGroup) {
@@ -261,10 +261,12 @@ func (pipeline *IncrementalPipeline) sync(job *job, ctx context.Context) (int, e
 						index := 0
 						for i := 0; i < parallelisms; i++ {
 							from := index
-							to := index + psize
-
-							if to >= len(entities) {
-								to = index + (len(entities) - index)
+							if from > len(entities) {
+								from = len(entities)
+							}
+							to := from + psize
+							if to > len(entities) {
+								to = len(entities)
 							}
 
 							chunk := make([]*server.Entity, to-from)
